@@ -482,7 +482,16 @@ def syncmix(tier, seed, avoid=()):
     progs.append(P("F14-count-vs-drop", [spawn(2), L("acount", "a1"), join(2), L("adrop", "a1")], [L("adrop", "a2")],
                    arcs={"A": {"h0": ["a1", "a2"], "cell": ""}}))
     progs.append(P("F15-park-twice", [spawn(2), spawn(3), unpark(2), join(2), join(3)], [L("park"), L("park")], [unpark(2)]))
-    per = 6 if tier == "quick" else 60
+    # a racing operation whose thread is blocked at the point where the other one was taken (a third thread unblocks it)
+    progs.append(P("blocked-racer-recv", [spawn(2), spawn(3), L("recv", "ch"), st("x", 2, "sc"), join(2), join(3), L("droprx", "ch")],
+                   [fadd("x", 1, "sc")], [L("send", "ch", v=1)]))
+    progs.append(P("blocked-racer-join", [spawn(2), spawn(3), join(3), st("x", 2, "sc"), join(2)], [fadd("x", 1, "sc")], [ld("y", "sc")]))
+    progs.append(P("blocked-racer-lock", SJ(3) + JJ(3), CS("m", ld("y", "sc")) + [st("x", 2, "sc")], [fadd("x", 1, "sc")], CS("m", st("y", 1, "sc"))))
+    progs.append(P("blocked-racer-park", [spawn(2), spawn(3), ld("y", "sc"), unpark(2), join(2), join(3)], [L("park"), st("x", 2, "sc")], [fadd("x", 1, "sc")]))
+    progs.append(P("blocked-racer-write", SJ(3) + JJ(3), [L("write", "l"), ld("y", "sc"), L("unlockw", "l"), st("x", 2, "sc")], [fadd("x", 1, "sc")],
+                   [L("read", "l"), st("y", 1, "sc"), L("unlockr", "l")]))
+    progs.append(P("blocked-racer-trylock", SJ(3) + JJ(3), CS("m", st("x", 1, "sc")), CS("m", fadd("x", 2, "sc")), [L("trylock", "m"), br(1, 1, 1), L("unlock", "m")]))
+    per = 8 if tier == "quick" else 60
     for feats in mixes:
         k = 0
         while k < per:
@@ -762,6 +771,11 @@ def wait_shapes():
     A(P("cv-handover", SJ(2) + JJ(2), CS("m", L("cvwait", "cv", o2="m"), rd("c")), [wr("c")] + CS("m", L("notify1", "cv"))))
     A(P("cv-handover-in-cs", SJ(2) + JJ(2), CS("m", L("cvwait", "cv", o2="m"), rd("c")), CS("m", wr("c"), L("notify1", "cv"))))
     A(P("notify-handover", [spawn(2), wr("c"), L("notify", "nt"), join(2)], [L("nwait", "nt"), rd("c")]))
+    # two notifications coalesce before the wait: the waiter is ordered after (at least) the last notifier
+    A(P("notify-twice-handover", [spawn(2), spawn(3), L("nwait", "nt"), ld("a"), ld("b"), join(2), join(3)],
+        [st("a", 1), L("notify", "nt")], [st("b", 1), L("notify", "nt")]))
+    A(P("notify-twice-handover-cells", [spawn(2), spawn(3), join(2), L("nwait", "nt"), rd("c"), join(3)],
+        [ld("a")], [wr("c"), L("notify", "nt")]))
     A(P("notify-before-wait", [L("notify", "nt"), spawn(2), join(2)], [L("nwait", "nt"), ld("x")]))
     A(P("park-handover", [spawn(2), wr("c"), unpark(2), join(2)], [L("park"), rd("c")]))
     A(P("join-handover", [spawn(2), join(2), rd("c")], [wr("c")]))
@@ -939,6 +953,12 @@ def await_shapes():
     A(P("await-rmw-writer", SJ(2) + JJ(2), [fadd("x", 10, "rel"), fadd("x", 20, "rel")], [await_("x", "acq"), ld("x")]))
     A(P("await-3threads", SJ(3) + JJ(3), [st("y", 1), st("x", 1, "rel")], [st("y", 2)], [await_("x", "acq"), ld("y")]))
     A(P("await-spin", SJ(2) + JJ(2), [st("y", 1), st("x", 1, "rel")], [I("await", "x", ord="acq", k="spin"), ld("y")]))
+    # two stale stores seen in consecutive rounds while the waiter is the only runnable thread
+    A(P("await-eq-2", SJ(2) + JJ(2), [st("x", 1), st("x", 2)], [await_("x", "rlx", v=2), ld("x")]))
+    A(P("await-eq-2-acq", SJ(2) + JJ(2), [st("y", 1), st("x", 1, "rel"), st("x", 2, "rel")], [await_("x", "acq", v=2), ld("y")]))
+    A(P("await-eq-3", SJ(2) + JJ(2), [st("x", 1), st("x", 2), st("x", 3)], [await_("x", "rlx", v=3)]))
+    A(P("await-two-atomics", SJ(2) + JJ(2), [st("x", 1, "rel"), st("y", 1, "rel")], [await_("x", "acq"), await_("y", "acq"), ld("x")]))
+    A(P("await-two-atomics-rlx", SJ(2) + JJ(2), [st("x", 1), st("y", 1)], [await_("y", "rlx"), await_("x", "rlx")]))
     A(P("await-under-lock", SJ(2) + JJ(2), [st("x", 1, "rel")] + CS("m", ld("y")), CS("m", await_("x", "acq"), st("y", 1))))
     return out
 
@@ -995,6 +1015,10 @@ def static_shapes():
     A(P("lz-racing-init-3", SJ(3) + JJ(3), [LZ("Z1", "yield")], [LZ("Z1", "yield")], [LZ("Z1", "yield")]))
     A(P("lz-publishes-data", SJ(2) + JJ(2), [LZ("Z0"), rd("c_Z0")], [LZ("Z0"), rd("c_Z0")]))
     A(P("lz-racy-publishes-data", SJ(2) + JJ(2), [LZ("Z1", "yield"), rd("c_Z1")], [LZ("Z1", "yield"), rd("c_Z1")]))
+    LR = lambda z: I("lzread", z)
+    A(P("lz-instance-data", SJ(2) + JJ(2), [LZ("Z0"), LR("Z0")], [LZ("Z0"), LR("Z0")]))
+    A(P("lz-racy-instance-data", SJ(2) + JJ(2), [LZ("Z1", "yield"), LR("Z1")], [LZ("Z1", "yield"), LR("Z1")]))
+    A(P("lz-racy-instance-data-3", SJ(3) + JJ(3), [LZ("Z1", "yield"), LR("Z1")], [LZ("Z1", "yield"), LR("Z1")], [ld("x"), LZ("Z1", "yield"), LR("Z1")]))
     A(P("lz-init-in-main-before-spawn", [LZ("Z0")] + SJ(2) + JJ(2), [LZ("Z0"), rd("c_Z0")], [rd("c_Z0")]))
     A(P("lz-and-tl", SJ(2) + JJ(2), [TW("T0"), LZ("Z0"), TW("T0")], [LZ("Z0"), TW("T0")]))
     A(P("lz-with-atomics", SJ(2) + JJ(2) + [ld("x")], [st("x", 1, "rel"), LZ("Z0")], [LZ("Z0"), ld("x", "acq")]))
@@ -1076,6 +1100,10 @@ def panic_base():
     A(P("pb-thread-local", SJ(1) + [I("tlwith", "T0"), ld("x")] + JJ(1), [I("tlwith", "T0"), I("tlwith", "T1"), ld("x")]))
     A(P("pb-lazy-static", SJ(1) + [I("lzget", "Z0"), ld("x")] + JJ(1), [I("lzget", "Z0"), ld("x")]))
     A(P("pb-notify", [spawn(2), L("nwait", "nt"), join(2)], [ld("x"), L("notify", "nt")]))
+    # violations loom detects itself (assertions on cell usage) while guards are alive
+    A(P("pb-read-inside-own-write", [spawn(2), ld("x"), L("wrrd", "c"), join(2)], [ld("x")]))
+    A(P("pb-write-inside-own-read", [spawn(2), ld("x"), join(2)], [ld("x"), L("rdwr", "c")]))
+    A(P("pb-read-inside-own-write-late", SJ(2) + JJ(2), [st("x", 1, "rel")], [ld("x", "acq"), br(1, 1, 1), L("wrrd", "c")]))
     A(P("pb-3threads", SJ(3) + JJ(3), [fadd("x", 1, "acqrel")], [fadd("x", 2, "acqrel")], CS("m", ld("x"))))
     return out
 
@@ -1132,6 +1160,8 @@ def iso_base():
         P("iso-statics", SJ(2) + [I("tlwith", "T0")] + JJ(2), [I("tlwith", "T0"), I("lzget", "Z0"), I("tlwith", "T0")], [I("lzget", "Z0"), I("tlwith", "T1")]),
         P("iso-lazy-racy", SJ(2) + JJ(2), [I("lzget", "Z1", k="yield")], [I("lzget", "Z1", k="yield"), I("lzget", "Z0"), rd("c_Z0")]),
         P("iso-await", SJ(2) + JJ(2), [st("y", 1), st("x", 1, "rel")], [await_("x", "acq"), ld("y")]),
+        P("iso-scfence-stale", [spawn(2), fence("sc"), ld("f"), ld("x"), join(2)], [st("x", 1), st("f", 1), fence("sc")]),
+        P("iso-scfence-3", SJ(3) + JJ(3), [st("x", 1), fence("sc"), ld("y")], [st("y", 1), fence("sc"), ld("x")], [fence("sc"), ld("x"), ld("y")]),
     ]
     B = [
         P("dis-leak-msg", [spawn(2), join(2)], [L("send", "ch", v=7), L("send", "ch", v=8)]),
